@@ -1687,3 +1687,48 @@ M.contract('exactly_lib.impls.types.program.parse.parse_shell_command:_ParseAsPr
            and is_empty_seq(result._accumulated_components.transformations)},
            raises={SingleInstructionInvalidArgumentException: {}},
            raises_only=())
+
+
+from exactly_lib.impls.types.program.parse import parse_program
+
+COMMAND_AND_ARGUMENTS = 'parse_default_or_optional_command'
+STDIN_PARSED = 'stdin-option-parsed'
+TRANSFORMATION_PARSED = 'transformation-option-parsed'
+
+
+class ProgramTokenParserI(Interface):
+    """the token parser, where it chooses and runs the parser of the command-and-arguments part: that part is a
+    program of one of the ProgramSdv classes, for which the induction hypothesis (a) was proved above"""
+    methods = {COMMAND_AND_ARGUMENTS: Method(returns=Iface(AnyProgramSdvI), event=COMMAND_AND_ARGUMENTS)}
+
+
+class OptionalStdinParserI(Interface):
+    methods = {'parse_from_token_parser': Method(returns=Opt(Iface(ElementI)), event=STDIN_PARSED)}
+
+
+class OptionalTransformationParserI(Interface):
+    methods = {'parse_from_token_parser': Method(returns=Opt(Iface(ElementI)), event=TRANSFORMATION_PARSED)}
+
+
+def _opt_singleton(x):
+    return [] if x is None else [x]
+
+
+M.contract('exactly_lib.impls.types.program.parse.parse_program:_Parser.parse_from_token_parser',
+           params=dict(self=Inst(parse_program._Parser, _consume_last_line_if_is_at_eol_after_parse=Const(False),
+                                 _consume_last_line_if_is_at_eof_after_parse=Const(False),
+                                 _string_transformer_parser=Iface(OptionalTransformationParserI),
+                                 _string_source_parser=Iface(OptionalStdinParserI),
+                                 _parser_of_executable_file=Iface(ArgumentsParserI), _program_variant_setups=Any_),
+                       parser=Iface(ProgramTokenParserI)),
+           ghosts=dict(j=Int), returns=Any_,
+           ensures={'PROGRAM = COMMAND-AND-ARGUMENTS [-stdin S] [-transformed-by T]: the stdin part and the '
+                    'transformation are appended AFTER what the command part (possibly a program symbol) already has; '
+                    'arguments unchanged': lambda result, trace, j:
+           same(result.g_driver, _returned(trace, COMMAND_AND_ARGUMENTS).g_driver)
+           and is_same_seq(result.g_args, _returned(trace, COMMAND_AND_ARGUMENTS).g_args, j)
+           and is_concat(result.g_stdin, _returned(trace, COMMAND_AND_ARGUMENTS).g_stdin,
+                         _opt_singleton(_returned(trace, STDIN_PARSED)), j)
+           and is_concat(result.g_transformations, _returned(trace, COMMAND_AND_ARGUMENTS).g_transformations,
+                         _opt_singleton(_returned(trace, TRANSFORMATION_PARSED)), j)},
+           raises_only=())
